@@ -1,4 +1,5 @@
 fn main() {
+    println!("cargo:rustc-check-cfg=cfg(trusttunnel_verif)");
     println!("cargo:rerun-if-changed=src/net_utils.c");
     cc::Build::new()
         .file("src/net_utils.c")
